@@ -29,7 +29,11 @@ pub const KINDS: [std::io::ErrorKind; 5] = [std::io::ErrorKind::Other, std::io::
 
 pub fn exec(c: &Case, fault: Option<(usize, bool)>) -> (Vec<Step>, usize, String) { exec_kind(c, fault, std::io::ErrorKind::Other) }
 
-pub fn exec_kind(c: &Case, fault: Option<(usize, bool)>, kind: std::io::ErrorKind) -> (Vec<Step>, usize, String) {
+pub fn exec_kind(c: &Case, fault: Option<(usize, bool)>, kind: std::io::ErrorKind) -> (Vec<Step>, usize, String) { let r = exec_full(c, fault, kind, true); (r.0, r.1, r.2) }
+
+/// `tabw`: every set_message is followed by a set_tab_width (a call the fault model has no operation for);
+/// also returns the number of failed terminal calls and position/length/finished of every bar at the end
+pub fn exec_full(c: &Case, fault: Option<(usize, bool)>, kind: std::io::ErrorKind, tabw: bool) -> (Vec<Step>, usize, String, usize, String) {
     vh::set_auto_advance_ns(0);
     vh::set_now_ns(T0);
     let rec = Recorder::new(c.h, c.w, false);
@@ -68,7 +72,7 @@ pub fn exec_kind(c: &Case, fault: Option<(usize, bool)>, kind: std::io::ErrorKin
                         match bop {
                             BOp::Tick => pb.tick(), BOp::Inc(d) => pb.inc(*d), BOp::Dec(d) => pb.dec(*d), BOp::SetPos(p) => pb.set_position(*p),
                             // every set_message is followed by a set_tab_width so that this call is part of the histories
-                            BOp::Msg(m) => { pb.set_message(m.clone()); pb.set_tab_width(4); }
+                            BOp::Msg(m) => { pb.set_message(m.clone()); if tabw { pb.set_tab_width(4); } }
                             // every set_prefix is followed by a set_tab_width so that this call is part of the histories
                             BOp::Prefix(m) => pb.set_prefix(m.clone()),
                             BOp::Len(None) => pb.unset_length(), BOp::Len(Some(l)) => pb.set_length(*l),
@@ -95,17 +99,20 @@ pub fn exec_kind(c: &Case, fault: Option<(usize, bool)>, kind: std::io::ErrorKin
             let tail = if after.is_ok() { "later-calls-ok" } else { "later-calls-panic" }.to_string();
             let calls = rec.st.lock().unwrap().calls;
             // destructors of poisoned objects may panic while unwinding: leak them
+            let failed = rec.failed();
             std::mem::forget(bars); std::mem::forget(mp);
-            return (steps, calls, tail);
+            return (steps, calls, tail, failed, String::new());
         }
     }
     // afterwards: one more call on every live bar and on the MultiProgress must still work
+    let (calls_end, failed_end) = (rec.calls(), rec.failed());
+    let plf: String = bars.iter().map(|b| match b { None => "-".to_string(), Some(pb) => format!("{}/{}/{}", pb.position(), pb.length().map_or("none".into(), |l| l.to_string()), pb.is_finished()) }).collect::<Vec<_>>().join(",");
     let after = catch_unwind(AssertUnwindSafe(|| { for b in bars.iter().flatten() { b.tick(); b.inc(1); let _ = b.message(); } let _ = mp.println("x"); }));
     let tail = if after.is_ok() { "ok" } else { "panic" }.to_string();
     // drop everything under catch_unwind as well
     let dropped = catch_unwind(AssertUnwindSafe(move || { drop(bars); drop(mp); }));
-    let calls = rec.st.lock().unwrap().calls;
-    (steps, calls, if dropped.is_ok() { tail } else { format!("{tail}+drop-panic") })
+    let calls = if tabw { rec.st.lock().unwrap().calls } else { calls_end };
+    (steps, calls, if dropped.is_ok() { tail } else { format!("{tail}+drop-panic") }, failed_end, plf)
 }
 
 pub fn run(seed: u64, tier: &str, out: &mut Out) {
@@ -137,5 +144,32 @@ pub fn run(seed: u64, tier: &str, out: &mut Out) {
             }
         }
         out.emit(&case, &format!("calls={calls} plans={plans} ORACLE {verdict}"));
+    }
+}
+
+/// C18 (fault model): the same histories under sampled fault plans, one line per (history, plan); the
+/// observation is compared with `Model/Faults.lean`: per operation the reported result, whether a terminal
+/// call failed during it and whether it panicked; then the terminal calls attempted and failed, and
+/// position / length / finished of every bar that is still alive.
+pub fn run_model(seed: u64, tier: &str, out: &mut Out) {
+    let mut rng = Rng::new(seed ^ 0x18F);
+    let n = if tier == "thorough" { 4_000 } else { 150 };
+    for _ in 0..n {
+        let mut c = multi::gen_case(&mut rng, false);
+        c.ops.truncate(16);
+        // dropped bars vanish from the harness's list but not from the model's: keep them out of this stream's histories
+        c.ops.retain(|o| !matches!(o, MOp::Bar(_, BOp::Drop)));
+        let (_, calls, _, _, _) = exec_full(&c, None, std::io::ErrorKind::Other, false);
+        let mut plans: Vec<(usize, bool)> = vec![(0, false), (0, true)];
+        if calls > 0 { plans.push((calls - 1, false)); plans.push((calls - 1, true)); }
+        for _ in 0..8 { if calls > 0 { plans.push((rng.below(calls as u64) as usize, rng.chance(1, 2))); } }
+        plans.push((calls + 5, false));   // a plan that never strikes
+        for (k, sticky) in plans {
+            let (steps, calls_f, _tail, failed, plf) = exec_full(&c, Some((k, sticky)), std::io::ErrorKind::Other, false);
+            let ops: Vec<String> = steps.iter().map(|s| format!("{}:{}:{}", match s.io_ok { None => "-", Some(true) => "ok", Some(false) => "err" }, if s.failed_during { 1 } else { 0 }, if s.outcome == "ok" { "ok" } else { "panic" })).collect();
+            let mut case = format!("MULTIF FX={} {k} {} 0 {} {} {} {}", crate::common::fx("draw"), if sticky { 1 } else { 0 }, c.w, c.h, c.hz, T0);
+            for op in &c.ops { case.push_str(" ; "); case.push_str(&op.enc()); }
+            out.emit(&case, &format!("{} calls={calls_f} failed={failed} log={plf} ORACLE ok", ops.join(" ")));
+        }
     }
 }
